@@ -108,24 +108,31 @@ def exposeRects (beh : Id → Rect → List DrawOp) (t : Tree) (pens : Array (Op
     let s1 ← doExpose beh t pens fuel 0 rect ((s.1.save).clipTo rect, s.2)
     exposeRects beh t pens fuel rest (s1.1.restore, s1.2)
 
-/-- `tickit_window_flush(root)`: the new state and the expose events in order. -/
+/-- The first half of `tickit_window_flush`: clear `needs_later_processing`, apply the queued restacking requests. -/
+def flushQueue (st : St) : Res Tree :=
+  let t : Tree := { st.tree with root := { st.tree.root with needsLater := false } }
+  applyChanges st.fuel { t with root := { t.root with changes := [] } } t.root.changes
+
+/-- The second half: render every damage rectangle into a fresh buffer and flush it to the terminal. -/
+def flushRender (beh : Id → Rect → List DrawOp) (st : St) (t : Tree) : Res (St × List Shot) := do
+  if t.root.needsExpose then
+    let root ← get t 0
+    let rb := RB.new root.rect.lines root.rect.cols
+    let rects := t.root.damage
+    let t : Tree := { t with root := { t.root with needsExpose := false, damage := [], needsRestore := false } }
+    let s ← exposeRects beh t st.pens st.fuel rects (rb, [])
+    pure ({ st with tree := t, screen := s.1.flushToGrid st.screen }, s.2)
+  else
+    pure ({ st with tree := { t with root := { t.root with needsRestore := false } } }, [])
+
+/-- `tickit_window_flush(root)`: the new state and the handler invocations in order. -/
 def flush (beh : Id → Rect → List DrawOp) (st : St) : Res (St × List Shot) := do
   let root ← get st.tree 0
   if root.parent.isSome then pure (st, [])
   else if !st.tree.root.needsLater then pure (st, [])
   else
-    let t : Tree := { st.tree with root := { st.tree.root with needsLater := false } }
-    let t ← applyChanges st.fuel { t with root := { t.root with changes := [] } } t.root.changes
-    if t.root.needsExpose then
-      let root ← get t 0
-      let rb := RB.new root.rect.lines root.rect.cols
-      let rects := t.root.damage
-      let t : Tree := { t with root := { t.root with needsExpose := false, damage := [] } }
-      let s ← exposeRects beh t st.pens st.fuel rects (rb, [])
-      let t : Tree := { t with root := { t.root with needsRestore := false } }
-      pure ({ st with tree := t, screen := s.1.flushToGrid st.screen }, s.2)
-    else
-      pure ({ st with tree := { t with root := { t.root with needsRestore := false } } }, [])
+    let t ← flushQueue st
+    flushRender beh st t
 
 /-! ### scrolling -/
 
